@@ -10,11 +10,11 @@ Extraction "model.ml"
   NumCodec.dec_zero_to_one NumCodec.quantize NumCodec.nreg_choice
   Color.decode_color1 Color.encode1 Color.encode2 Color.encode3direct Color.encode4 Color.encode3indirect
   Color.enc_color Color.dec_color_form Color.resolve Color.color_rgba Color.encode_gradient Color.decode_gradient
-  Color.valid_premul Color.valid_gradient
+  Color.valid_premul Color.valid_gradient Color.palette_index_color Color.creg_color
   Calls.default_viewbox Calls.default_palette
   Decoder.decode_items Decoder.decode_calls Decoder.decode_viewbox Decoder.disassemble Decoder.calls_of
   Encoder.enc_zero Encoder.enc_run Encoder.enc_act Encoder.enc_bytes
-  Render.rinit Render.N32 Arc.rstep32 Arc.rrun32 Gradient.pix2grad Gradient.grad_at Gradient.clamp
+  Render.rinit Render.set_rasterizer Render.N32 Arc.rstep32 Arc.rrun32 Gradient.pix2grad Gradient.grad_at Gradient.clamp
   GoMath.gosin GoMath.gocos GoMath.goacos
   Fit.F32ops Fit.vb_size Fit.aspect_meet Fit.aspect_slice
   Generator.set_gradient Generator.linear_matrix Generator.circular_matrix Generator.elliptical_matrix
